@@ -424,9 +424,24 @@ class Enumerator:
                     yield from self._for(st, e2, hctx, 0)
             return
         if isinstance(st, (ast.With, ast.AsyncWith)):
+            # with contextlib.suppress(E1, E2): body   ==   try: body / except (E1, E2): pass
+            sup = []
+            for it in st.items:
+                c = it.context_expr
+                if isinstance(c, ast.Call) and norm(c.func) in ("suppress", "contextlib.suppress"):
+                    for a in c.args:
+                        try:
+                            sup.extend(self.prog.resolve_exc_expr(self._fn(hctx).module, a))
+                        except AnalysisError:
+                            raise AnalysisError("cannot resolve suppressed class %s at %s" % (norm(a), self._fn(hctx).loc(st)))
+
             def items(i, cur):
                 if i == len(st.items):
-                    yield from self._block(st.body, cur, hctx)
+                    for e9, oc9 in self._block(st.body, cur, hctx):
+                        if sup and oc9[0] == "raise" and any(self.prog.is_subclass(oc9[1], s_) for s_ in sup):
+                            yield e9 + (Ev("catch", ast.ExceptHandler(type=None, name=None, body=[], lineno=st.lineno, col_offset=0), oc9[1]),), ("fall",)
+                        else:
+                            yield e9, oc9
                     return
                 for e2, oc in self._expr(st.items[i].context_expr, cur, hctx):
                     if oc is not None:
